@@ -50,6 +50,7 @@ type Task struct {
 	wake   chan struct{}
 	state  taskState
 	killed bool
+	tdHeld map[any]int // locks acquired while unwinding (teardown), by lock key
 	// lock the task is about to take (stWantLock)
 	wantLock any
 	wantMode lockMode
@@ -809,6 +810,10 @@ func doLock(l any, m lockMode) {
 				os.Exit(2)
 			}
 		}
+		if t.tdHeld == nil {
+			t.tdHeld = map[any]int{}
+		}
+		t.tdHeld[key(l)]++
 		return
 	}
 	t.state = stWantLock
@@ -823,9 +828,26 @@ func doLock(l any, m lockMode) {
 
 //go:norace
 func doUnlock(l any, m lockMode) {
-	rawUnlock(l, m)
 	t := curTask()
-	if t == nil || t.killed {
+	if t != nil && t.killed {
+		// Unwinding. A deferred release may belong to a lock the task had dropped for a while when it was stopped
+		// (unlock - call out - lock again, inside a function that releases by defer): in a real execution the task would
+		// have gone on to re-acquire it; here it is torn down in between, and releasing a lock nobody holds would end the
+		// process. Release only what the book (or the unwinding itself) says this task holds.
+		k := key(l)
+		if t.tdHeld[k] > 0 {
+			t.tdHeld[k]--
+			rawUnlock(l, m)
+			return
+		}
+		if ls := t.sim.locks[k]; ls != nil && ((m == modeW && ls.writer == t) || (m == modeR && ls.readers[t] > 0)) {
+			t.sim.released(t, k, m)
+			rawUnlock(l, m)
+		}
+		return
+	}
+	rawUnlock(l, m)
+	if t == nil {
 		return
 	}
 	t.relLock, t.relMode, t.hasRel = key(l), m, true
